@@ -632,12 +632,13 @@ macro_rules! impl_send_var_messages_i8 {
             F: FnMut(SentMessage<i8>),
         {
             let degree_one = check_messages.len() == 1;
-            // Compute new LLR. We use an i16 to avoid overflows.
-            let llr = i16::from($degree_one_clip(input_llr, degree_one))
-                + check_messages
-                    .iter()
-                    .map(|m| i16::from(m.value))
-                    .sum::<i16>();
+            // Compute new LLR. We use an i16 to avoid overflows (saturating,
+            // since more than 257 check messages can exceed the range of an
+            // i16).
+            let llr = check_messages.iter().fold(
+                i16::from($degree_one_clip(input_llr, degree_one)),
+                |acc, m| acc.saturating_add(i16::from(m.value)),
+            );
             // Optional Jones clipping
             let llr = $jones_clip(llr);
             // Exclude the contribution of each check node to generate message for
@@ -645,7 +646,7 @@ macro_rules! impl_send_var_messages_i8 {
             for msg in check_messages.iter() {
                 send(SentMessage {
                     dest: msg.source,
-                    value: Self::clip(llr - i16::from(msg.value)),
+                    value: Self::clip(llr.saturating_sub(i16::from(msg.value))),
                 });
             }
             Self::clip(llr)
@@ -772,7 +773,7 @@ macro_rules! impl_minstarapproxi8 {
                         .iter()
                         .filter(|msg| msg.dest != exclude_msg.dest)
                     {
-                        let x = Self::clip(vars[msg.dest] - i16::from(msg.value));
+                        let x = Self::clip(vars[msg.dest].saturating_sub(i16::from(msg.value)));
                         if x < 0 {
                             sign ^= 1;
                         }
@@ -795,7 +796,8 @@ macro_rules! impl_minstarapproxi8 {
                 }
                 // Update Rcv's and Qv's
                 for (msg, &minstar) in check_messages.iter_mut().zip(self._minstars.iter()) {
-                    vars[msg.dest] += i16::from(minstar) - i16::from(msg.value);
+                    vars[msg.dest] =
+                        vars[msg.dest].saturating_add(i16::from(minstar) - i16::from(msg.value));
                     msg.value = minstar;
                 }
             }
@@ -1201,14 +1203,14 @@ macro_rules! impl_aminstari8 {
             ) {
                 let (argmin, msgmin) = check_messages
                     .iter()
-                    .map(|msg| Self::clip(vars[msg.dest] - i16::from(msg.value)))
+                    .map(|msg| Self::clip(vars[msg.dest].saturating_sub(i16::from(msg.value))))
                     .enumerate()
                     .min_by_key(|(_, msg)| msg.abs())
                     .expect("var_messages is empty");
                 let mut sign: u32 = 0;
                 let mut delta = None;
                 for (j, msg) in check_messages.iter().enumerate() {
-                    let x = Self::clip(vars[msg.dest] - i16::from(msg.value));
+                    let x = Self::clip(vars[msg.dest].saturating_sub(i16::from(msg.value)));
                     if x < 0 {
                         sign ^= 1;
                     }
@@ -1241,7 +1243,7 @@ macro_rules! impl_aminstari8 {
                 .max(0);
                 let delta_hl = $check_hardlimit(delta);
                 for (j, msg) in check_messages.iter_mut().enumerate() {
-                    let x = vars[msg.dest] - i16::from(msg.value);
+                    let x = vars[msg.dest].saturating_sub(i16::from(msg.value));
                     let rcv = if j == argmin {
                         msgmin_rcv
                     } else {
@@ -1251,7 +1253,7 @@ macro_rules! impl_aminstari8 {
                             delta_hl
                         }
                     };
-                    vars[msg.dest] = x + i16::from(rcv);
+                    vars[msg.dest] = x.saturating_add(i16::from(rcv));
                     msg.value = rcv;
                 }
             }
